@@ -4,7 +4,7 @@ from harness import tie
 
 PID = "C55"
 ASSUMPTIONS = [
-    "tie configurations: to_cycles in {1,2,3,5} (quick) / {1..8,16} (thorough), both allow_delay modes; "
+    "tie configurations: to_cycles in {1,2,3,5} (quick) / {1..8,16} (thorough), both allow_delay modes; correspondence (model vs simulator) also at 12, 17, 32, 33 (quick) / 12, 17, 31, 32, 33, 64, 100, 128 (thorough) -- lengths around and at powers of two, where a counter-based implementation would be one bit short; "
     "the parametric theorem C55_stretch_exact covers every to_cycles >= 1 for the hand model",
     "allow_delay with to_cycles = 1 passes the strobe through undelayed (delay is permitted, not required)",
 ]
@@ -34,7 +34,7 @@ def targets(tier):
     ns = [1, 2, 3, 5] if tier == "quick" else [1, 2, 3, 4, 5, 6, 7, 8, 16]
     ts = [mk(n, d) for n in ns for d in (False, True)]
     for t in ts: t.big = False
-    big = [mk(n, d) for n in ([12, 33] if tier == "quick" else [12, 33, 64, 100]) for d in (False, True)]
+    big = [mk(n, d) for n in ([12, 17, 32, 33] if tier == "quick" else [12, 17, 31, 32, 33, 64, 100, 128]) for d in (False, True)]
     for t in big: t.big = True
     return ts + big
 
@@ -54,7 +54,9 @@ def obligations(targets, tier):
         n = t.params["n"]; d = "true" if t.params["delay"] else "false"
         if t.big:
             obs.append(tie.corr(f"corr_{t.name}", t, mstep=f"stretch_mstep {n} {d}", m0=f"sr_init {n} {d}",
-                                describe=f"list model vs simulator at to_cycles={n} (beyond the R tie)"))
+                                describe=f"list model vs simulator at to_cycles={n} (beyond the R tie); the model is the specification for "
+                                         f"every n and every trace (C55_stretch_exact), so a differing trace is a failing input",
+                                spec_exact=True))
             continue
         obs.append(tie.rlock(
             f"ob_{t.name}", t,
